@@ -65,6 +65,7 @@ for line in open(build + "/e2/sync_files.txt"):
     m[repo + "/" + f] = out
 m[open(build + "/e2/gauge_path.txt").read().strip()] = build + "/e2/frozen_gauge.go"
 m[repo + "/engine/zz_verif.go"] = verif + "/hooks/engine_zz_verif.go.txt"
+m[repo + "/syntax/zz_verif_lazies.go"] = verif + "/hooks/syntax_zz_verif_lazies.go.txt"
 print(json.dumps({"Replace": m}, indent=1))
 PY
 }
